@@ -126,6 +126,26 @@ def placement_items(rng, table, n):
     return out
 
 
+LIT_TEMPLATES = [
+    ("Display", "#[display(@LIT@)] struct S;"), ("Display", "#[display(@LIT@, _0, _1)] struct S<T, U>(T, U);"),
+    ("Display", "#[display(@LIT@, a = x, b = y)] struct S<T, U> { x: T, y: U }"), ("LowerHex", "#[lower_hex(@LIT@)] struct S<T>(T);"),
+    ("Debug", "#[debug(@LIT@)] struct S<T>(T, u8);"), ("Debug", "struct S<T> { #[debug(@LIT@)] x: T, y: u8 }"),
+    ("Debug", "enum E<T> { #[debug(@LIT@)] A(T), B { #[debug(@LIT@, x)] x: T } }"), ("Display", "#[display(@LIT@)] enum E<T> { A(T), #[display(@LIT@)] B { x: T }, C }"),
+    ("Display", "enum E { #[display(@LIT@)] A, B(u8) }"), ("Display", "#[display(@LIT@, _variant)] enum E { A, B(u8) }"),
+    ("Pointer", "#[pointer(@LIT@)] struct S<'a>(&'a u8);"), ("Display", "#[display(@LIT@)] union U { a: u8 }"),
+]
+
+
+def confirm_hang(derive, item, tries=3, limit=20):
+    """A watchdog expiry is a verdict only if the single case reproducibly exceeds `limit` seconds in isolation."""
+    n = 0
+    for _ in range(tries):
+        rc, outs, err, _ = inproc.run_mode("expand", ["0\t%s\t%s" % (derive, inproc.hexs(item))], timeout=limit)
+        if rc == -998:
+            n += 1
+    return n == tries
+
+
 def run(ctx):
     rng = ctx.rng
     inproc.build()
@@ -137,7 +157,7 @@ def run(ctx):
     nsh = common.NCPU
 
     def bulk(k):
-        return inproc.run_mode("bulk18", [], args=[inproc.hexs(ALPHABET), str(maxlen), str(k), str(nsh), str(nrand), str(ctx.seed), "lite"], timeout=2400)
+        return inproc.run_mode("bulk18", [], args=[inproc.hexs(ALPHABET), str(maxlen), str(k), str(nsh), str(nrand), str(ctx.seed), "lite"], timeout=ctx.pick(400, 1500))
 
     # (b)+(c)
     cases = []
@@ -153,7 +173,7 @@ def run(ctx):
     def expand(part_idx):
         part = parts[part_idx]
         lines = ["%d\t%s\t%s" % (i, d, inproc.hexs(src)) for i, (d, src, kind) in enumerate(part)]
-        rc, outs, err, last = inproc.run_mode("expand", lines, args=["--digest"], timeout=2400)
+        rc, outs, err, last = inproc.run_mode("expand", lines, args=["--digest"], timeout=ctx.pick(400, 1500))
         return part_idx, rc, outs, err, last
 
     with ThreadPoolExecutor(max_workers=nsh) as ex:
@@ -164,7 +184,17 @@ def run(ctx):
     for k, (rc, outs, err, last) in enumerate(bulk_res):
         st = [o for o in outs if o.get("kind") == "stats"]
         if rc == -998:
-            raise Inconclusive("literal shard %d timed out at %r" % (k, last))
+            hung = None
+            if last is not None:
+                for d_, tpl in LIT_TEMPLATES:
+                    it_ = tpl.replace("@LIT@", common.rs_str(last))
+                    if confirm_hang(d_, it_):
+                        hung = (d_, it_)
+                        break
+            if hung:
+                ctx.violate("hang:literal:%s" % hung[0], "derive(%s) does not terminate within 20 s (3 isolated attempts) on `%s`" % (hung[0], hung[1][:300]), derive=hung[0], item=hung[1])
+                continue
+            raise Inconclusive("literal shard %d timed out at %r and no single template reproduces it" % (k, last))
         if rc != 0 or not st:
             # the child died: the journal names the literal
             ctx.violate("crash:literal", "child process died (rc=%s) while handling literal %r: %s" % (rc, last, err[-300:]), literal=last, stderr=err[-2000:])
@@ -184,7 +214,14 @@ def run(ctx):
         part = parts[part_idx]
         got = {o["id"]: o for o in outs}
         if rc == -998:
-            raise Inconclusive("expansion shard %d timed out at case %r" % (part_idx, last))
+            try:
+                d, src, kind = part[int(last)]
+            except (TypeError, ValueError, IndexError):
+                raise Inconclusive("expansion shard %d timed out without a usable journal" % part_idx)
+            if confirm_hang(d, src):
+                ctx.violate("hang:%s" % d, "derive(%s) does not terminate within 20 s (3 isolated attempts) on `%s`" % (d, src[:400]), derive=d, item=src)
+                continue
+            raise Inconclusive("expansion shard %d timed out at case %r, which terminates in isolation" % (part_idx, last))
         if rc != 0 or len(got) != len(part):
             # attribute the death
             try:
